@@ -223,3 +223,32 @@ func (r *TLCResult) Tail(n int) string {
 	}
 	return strings.Join(ls, "\n")
 }
+
+// ErrorText returns TLC's error section (from the first "Error:" line, coverage
+// statistics excluded).
+func (r *TLCResult) ErrorText(max int) string {
+	ls := strings.Split(r.Out, "\n")
+	var out []string
+	on := false
+	for _, l := range ls {
+		if strings.HasPrefix(l, "Error:") {
+			on = true
+		}
+		if strings.HasPrefix(l, "The coverage statistics") {
+			on = false
+		}
+		if on {
+			if len(l) > 400 {
+				l = l[:400] + "…"
+			}
+			out = append(out, l)
+			if len(out) >= max {
+				break
+			}
+		}
+	}
+	if len(out) == 0 {
+		return r.Tail(max)
+	}
+	return strings.Join(out, "\n")
+}
